@@ -25,6 +25,7 @@ RULE += (
          'Also: item sorts combined with a batch window. ')
 RULE += (
          'Directions spelled in any case. ')
+RULE += ('Round 8: the loop nested in a sorted / reversed loop over the same sequence shows the order it shows alone. ')
 ASSUMPTIONS = [
     'keys inside one list are mutually comparable (one type, plus None / '
     'missing)',
